@@ -40,6 +40,13 @@ Record view := View {
   v_top : Z; v_shown : Z; v_blank : Z; v_padr : Z; v_trimr : Z; v_cursor : coords
 }.
 
+(* CompositeCanvas._drop_cursor_outside: the cursor is forgotten unless it lies inside a canvas of cols x rows *)
+Definition inside_canvas (cols rows : Z) (cu : coords) : coords :=
+  match cu with
+  | Some (x, y) => if (0 <=? x) && (x <? cols) && (0 <=? y) && (y <? rows) then cu else None
+  | None => None
+  end.
+
 (* Scrollable.render(size, focus) *)
 Definition s_render (st : sstate) (maxcol maxrow : Z) (ob : cobs) : result (sstate * view) :=
   let canv_cols := c_cols ob in
@@ -73,11 +80,15 @@ Definition s_render (st : sstate) (maxcol maxrow : Z) (ob : cobs) : result (ssta
     let trimr := if 0 <? trim_right then trim_right else 0 in
     let top := if 0 <? tp then tp else 0 in
     let shown := Z.min (Z.max 0 (canv_rows - top)) rows2 in
-    (* cursor: trim() translates the coordinates by -trim_top;
-       if cursrow >= maxrow or cursrow < 0: canv.cursor = None *)
-    let cur1 := match c_cursor ob with
-                | Some (c, r) => Some (c, r - top)
-                | None => None end in
+    (* cursor: trim() translates the coordinates by -trim_top; trim(), trim_end() and the right trim each end with
+       _drop_cursor_outside(): the cursor is forgotten unless 0 <= x < cols() and 0 <= y < rows() of the canvas at
+       that moment (canvas.py since fix aa8a06a).  Then: if cursrow >= maxrow or cursrow < 0: canv.cursor = None *)
+    let cols1 := canv_cols + pad_width in
+    let cur_a := if 0 <? tp
+                 then inside_canvas cols1 rows1 (match c_cursor ob with Some (c, r) => Some (c, r - tp) | None => None end)
+                 else c_cursor ob in
+    let cur_b := if 0 <? trim_end then inside_canvas cols1 rows2 cur_a else cur_a in
+    let cur1 := if 0 <? trim_right then inside_canvas (cols1 + - trim_right) rows2 cur_b else cur_b in
     let cur2 := match cur1 with
                 | Some (c, r) => if (maxrow <=? r) || (r <? 0) then None else Some (c, r)
                 | None => None end in
@@ -185,6 +196,49 @@ Definition b_render (bs : bstate) (maxcol maxrow : Z) (ob : bobs)
     | Err e => Err e
     | Ok (st1, v) => Ok (BState st1 (bar_width_raw bs) (maxcol, maxrow), (maxcol, None, v))
     end.
+
+(* ---- ScrollBar.render over ANY widget speaking the scrolling protocol (SupportsScroll, optionally
+   SupportsRelativeScroll: ListBox), including the relative mode.  The wrapped widget is described by what it
+   answers during the call. *)
+Record pobs := PObs {
+  p_relcap : bool;     (* isinstance(ow_base, SupportsRelativeScroll) and it has __length_hint__ / __len__ *)
+  p_reqrel : bool;     (* ow_base.require_relative_scroll(size, focus) *)
+  p_len : Z;           (* ow_base.__len__() or its length hint *)
+  p_visible : Z;       (* ow_base.get_visible_amount(ow_size, focus) *)
+  p_first : Z;         (* ow_base.get_first_visible_pos(ow_size, focus) *)
+  p_rows_full : Z;     (* ow_base.rows_max(size, focus) *)
+  p_rows_w : Z;        (* ow_base.rows_max(ow_size, focus) *)
+  p_pos : Z            (* ow_base.get_scrollpos(ow_size, focus) *)
+}.
+
+(* the relative block of ScrollBar.render: Some (pos, posmax, thumb_weight) when the relative mode is in effect *)
+Definition p_relative (po : pobs) : option (Z * Z * Q) :=
+  (* use_relative = isinstance(...) and any(hasattr ...) and ow_base.require_relative_scroll(size, focus) *)
+  if p_relcap po && p_reqrel po then
+    (* ow_len = max(ow_len, visible_amount, pos); posmax = ow_len - visible_amount
+       thumb_weight = min(1.0, visible_amount / max(1, ow_len)) *)
+    let ow_len := Z.max (Z.max (p_len po) (p_visible po)) (p_first po) in
+    (* if ow_len == visible_amount: use_relative = False *)
+    if ow_len =? p_visible po then None
+    else Some (p_first po, ow_len - p_visible po, f_min1 (f_div_int_int (p_visible po) (Z.max 1 ow_len)))
+  else None.
+
+(* returns (width given to the wrapped widget, the bar if one is drawn) *)
+Definition pb_render (bw_raw maxcol maxrow : Z) (po : pobs) : result (Z * option bar) :=
+  let ow_w := Z.max 0 (maxcol - bw_raw) in
+  let sb_width := maxcol - ow_w in
+  let mk (g : Z * Z * Z) :=
+    let '(top, thumb, bottom) := g in
+    if (top <? 0) || (thumb <? 0) || (bottom <? 0) then Err WidgetError
+    else Ok (ow_w, Some (Bar sb_width top thumb bottom)) in
+  match p_relative po with
+  | Some (pos, posmax, tw) => mk (thumb_geom maxrow pos posmax tw)
+  | None =>
+      (* if not use_relative: if ow_base.rows_max(size, focus) > maxrow: ... else: return render_no_scrollbar() *)
+      if maxrow <? p_rows_full po then
+        mk (thumb_geom maxrow (p_pos po) (p_rows_w po - maxrow) (thumb_weight_of maxrow (p_rows_w po)))
+      else Ok (maxcol, None)
+  end.
 
 (* ScrollBar.mouse_event: wheel scrolling only when the wrapped widget did not handle the event *)
 Definition b_mouse (bs : bstate) (has_mouse : bool) (button row : Z) (child_handled : bool) : bstate * (Z * bool) :=
@@ -317,8 +371,23 @@ Fixpoint dec_ops (fuel : nat) (l : list Z) : list op :=
 
 (* sub-model 9: the thumb geometry alone (exercises the float model on arbitrary inputs):
    9 maxrow pos posmax weight_num weight_den  ->  top thumb bottom *)
+(* sub-model 8: ScrollBar.render over a protocol widget (ListBox), one record per render:
+   8 bw n (maxcol maxrow relcap reqrel len visible first rows_full rows_w pos)*n
+     ->  per render: err child_w hasbar sbw top thumb bottom *)
+Fixpoint run_proto (bw : Z) (n : nat) (l : list Z) : list Z :=
+  match n, l with
+  | S k, maxcol :: maxrow :: rc :: rr :: ln :: vis :: fst_ :: rf :: rw :: pos :: r =>
+      (match pb_render bw maxcol maxrow (PObs (zb rc) (zb rr) ln vis fst_ rf rw pos) with
+       | Err e => [errcode e; 0; 0; 0; 0; 0; 0]
+       | Ok (cw, None) => [0; cw; 0; 0; 0; 0; 0]
+       | Ok (cw, Some b) => [0; cw; 1; b_width b; b_top b; b_thumb b; b_bottom b]
+       end) ++ run_proto bw k r
+  | _, _ => []
+  end.
+
 Definition run_case (l : list Z) : list Z :=
   match l with
+  | 8 :: bw :: n :: r => run_proto (Z.max 1 bw) (Z.to_nat n) r
   | 9 :: maxrow :: pos :: posmax :: a :: b :: _ =>
       let '(t, th, bo) := thumb_geom maxrow pos posmax (f_min1 (f_div_int_int a (Z.max 1 b))) in
       [t; th; bo]
